@@ -1273,6 +1273,11 @@ pub fn run_program(p: &Program, prop: &str, canary: bool, log: bool) -> Outcome 
     }
 }
 
+/// Forget the events stashed by `wait_pool_jobs` (start of a new program).
+pub fn reset_stash() {
+    STASH.with(|s| s.borrow_mut().clear());
+}
+
 /// Wait (bounded) until every pool job submitted so far has begun and ended.
 pub fn wait_pool_jobs(max: Duration) -> bool {
     let t0 = Instant::now();
